@@ -137,7 +137,7 @@ func applyComponentToProgram(prog *ast.Program, progFilePath string) *fail.Error
 			return failErr
 		}
 
-		if err := prog.ApplyComponent(compName, compProg, progFilePath); err != nil {
+		if err := prog.ApplyComponent(comp, compProg, progFilePath); err != nil {
 			return err
 		}
 	}
